@@ -184,8 +184,6 @@ def call_outcomes(self: Interp, node: ast.Call, st: State):
             return [(st, lib.type_of(self, st, self.eval(node.args[0], st)), None)]
         if nm == "super" and not node.args:
             return [(st, SuperProxy(st.env["self"], self.frame.cls), None)]
-        if nm == "delayed":
-            raise Unsupported("joblib.delayed outside its Parallel pattern")
     f = self.eval_callee(fn, st)
     args = []
     for a in node.args:
